@@ -89,7 +89,8 @@ fn read_tar(tarbytes: &[u8]) -> Value {
             "mtime": h.mtime().unwrap_or(0), "size": h.size().unwrap_or(0), "sha512": hexs(&sha2::Sha512::digest(&data)),
             "data_len": data.len(), "read_ok": rd.is_ok(),
         });
-        if data.len() <= 16384 { v["data_hex"] = json!(hexs(&data)); }
+        let limit = if std::env::var("VSBH_FULL_DATA").is_ok() { 8 << 20 } else { 16384 };
+        if data.len() <= limit { v["data_hex"] = json!(hexs(&data)); }
         if let Some(t) = target { v["target_hex"] = json!(t); }
         entries.push(v);
     }
